@@ -107,6 +107,9 @@ CHECKS['C09'] = dict(
           dict(name='badrec', harness='c09_depslog.cc', units=_C09_UNITS, defines=['DAMAGE_BADREC', 'CONCRETE_SEQ'], reach=['badrec', 'done'],
                quick=dict(defines=['VERIF_SEQS=1', 'VERIF_MAXREC=2'], bounds='1 sequence x 1..2 records, cut at every record boundary, then one well-framed record: kind x size in {4..20} x words in {0,1,2,5,9,-1,-2,INT_MAX,"a"}; later sessions must load cleanly and keep what they record'),
                thorough=dict(defines=['VERIF_SEQS=3', 'VERIF_MAXREC=4'], bounds='3 sequences x 1..4 records, same damage', limits=dict(time=3000, max_paths=3000000))),
+          dict(name='recompact_crash', harness='c09_depslog.cc', units=_C09_UNITS, defines=['DAMAGE_RECOMPACT_CRASH', 'CONCRETE_SEQ', 'VERIF_MAX_EVENTS=14'], reach=['recompaction-killed', 'recompaction-completed', 'recompact-2', 'recompact-3', 'done'],
+               quick=dict(defines=['VERIF_SEQS=2', 'VERIF_MAXREC=3'], bounds='2 sequences x 1..3 records; a session that recompacts and is killed after persistence event 0..14 of the recompaction; then load, append (4 choices), recompaction never / in session 2 / in session 3, reload'),
+               thorough=dict(defines=['VERIF_SEQS=3', 'VERIF_MAXREC=4'], bounds='3 sequences x 1..4 records, same', limits=dict(time=3000, max_paths=3000000))),
           dict(name='tear_sym', harness='c09_depslog.cc', units=_C09_UNITS, defines=['DAMAGE_TEAR', 'SMALL_MENU'], reach=['tear-some', 'done'], thorough_only=True,
                quick=dict(defines=['VERIF_RECORDS=1'], bounds='1 record with symbolic output (4), mtime (3), dependency list (4 menus); torn at every byte', limits=dict(time=1500)),
                thorough=dict(defines=['VERIF_RECORDS=2'], bounds='1..2 such records', limits=dict(time=3000, max_paths=3000000)))])
@@ -285,7 +288,7 @@ CHECKS['C14']['level_note'] += ' A second job covers paths of up to 513 componen
 
 # ---- the same harnesses entered through ninja.cc's real_main (flag parsing, NinjaMain, RebuildManifest loop, RunBuild, real StatusPrinter)
 SCENARIOS.append('regen_manifest')     # 29
-SCENARIOS.append('dead_outputs'); SCENARIOS.append('tools_mix'); SCENARIOS.append('generator_runs_restat')    # 30, 31, 32
+SCENARIOS.append('dead_outputs'); SCENARIOS.append('tools_mix'); SCENARIOS.append('generator_runs_restat'); SCENARIOS.append('dyndep_after_order_only'); SCENARIOS.append('console_first'); SCENARIOS.append('restat_consumer')    # 30, 31, 32, 33, 34, 35
 def _via_main(jobs, thorough_only=False):
     out = []
     for j in jobs:
@@ -322,6 +325,13 @@ CHECKS['C19']['jobs'] += _tool_jobs([31], reach=('read-only-tool', 'commands', '
 CHECKS['C08']['jobs'] += _hist_jobs('CHECK_C08', 2, 3, [32], extra_defs=['CHECK_C02'], reach=('built', 'incremental-build', 'records-checked', 'converged-checked'))
 CHECKS['C08']['level_text'] += ' A pipeline job runs histories of whole builds in which a generator command runs `ninja -t restat` (the real BuildLog::Restat, temporary file + rename) while the outer ninja holds the log open, and asserts that every record of the session is in the log afterwards and the next build has nothing to do.'
 CHECKS['C02']['jobs'] += _hist_jobs('CHECK_C02', 2, 3, [32], reach=('built', 'converged-checked'))
+CHECKS['C04']['jobs'] += _mode_jobs('MODE_SCHED', [33], suffix='_sched', reach=('built', 'parallel'), bounds='one invocation from the empty tree, -j in {1,2,3}, every completion order')
+CHECKS['C11']['jobs'] += _mode_jobs('MODE_SCHED', [33], suffix='_sched', reach=('built',), bounds='one invocation from the empty tree, -j in {1,2,3}, every completion order (the dyndep file is an order-only input listed after another one)')
+CHECKS['C07']['jobs'] += _mode_jobs('MODE_CRASH', [35], extra=['FROM_BUILT', 'SINGLE_EDIT', 'DOUBLE_EDIT', 'OPS_BEFORE_RECOVERY', 'PARTIAL_WRITES'], suffix='_partial', reach=('died', 'recovered'), quick_defs=['VERIF_MAX_EVENTS=12'],
+    bounds='fully built tree, one source edited (by 1 or 2), build killed after persistence event 0..12 while a command may have left partially written outputs, one more edit, recovery build, no-op build')
+CHECKS['C07']['jobs'] += _mode_jobs('MODE_CRASH', [26], extra=['FROM_BUILT', 'SINGLE_EDIT', 'DOUBLE_EDIT', 'OPS_BEFORE_RECOVERY', 'PARTIAL_WRITES'], suffix='_partial', reach=('died', 'recovered'), quick_defs=['VERIF_MAX_EVENTS=12'], thorough_only=True,
+    bounds='the same on a shape with an order-only input and a manifest variant (changed command line) that the user may switch before the killed build and again before the recovery build')
+CHECKS['C07']['level_text'] += ' One job lets a command that dies with ninja leave partially written outputs (newer than every input, garbage content, nothing recorded) and lets the user edit again before the recovery build.'
 
 # ---- the real process layer (RealCommandRunner, SubprocessSet, Subprocess, PosixJobserverClient) over the modelled operating system of harness/osmodel.h
 _OS_WRAP = ['pipe', 'close', 'read', 'write', 'open', 'fstat', 'sigemptyset', 'sigaddset', 'sigismember', 'sigprocmask', 'sigpending', 'sigaction', 'posix_spawn_file_actions_init', 'posix_spawn_file_actions_destroy',
@@ -339,6 +349,7 @@ CHECKS['C20']['jobs'] += _real_runner(_mode_jobs('MODE_STATUS', [9], extra=['WIT
 CHECKS['C05']['jobs'] += _real_runner(_mode_jobs('MODE_FAIL', [13], reach=('failed', 'retried', 'all-succeeded'), bounds='one invocation from the empty tree; any subset of commands fails with exit code 1..3 or dies by SIGSEGV/SIGKILL, touched or not; -k in {1,2,0}; -j in {1,2,3}'))
 CHECKS['C06']['jobs'] += _real_runner(_mode_jobs('MODE_SCHED', [9], reach=('built',), bounds='one invocation from the empty tree, -j in {1,2,3}, every completion order'))
 CHECKS['C06']['jobs'] += _real_runner(_mode_jobs('MODE_SCHED', [13], extra=['WITH_JOBSERVER', 'WITH_FAILURES'], suffix='_tokens_fail', reach=('tokens-success', 'tokens-failure'), bounds='jobserver FIFO (MAKEFLAGS --jobserver-auth=fifo:) holding 0..2 tokens, any command may fail, -k in {1,2}'))
+CHECKS['C06']['jobs'] += _real_runner(_mode_jobs('MODE_SCHED', [34], extra=['WITH_JOBSERVER'], suffix='_tokens', reach=('tokens-success', 'token-arrived', 'woken-for-token', 'watching-with-console-only'), bounds='pools and console commands as a jobserver client: FIFO holding 0..2 tokens, another client may return one token while ninja waits'))
 CHECKS['C07']['jobs'] += _real_runner(_mode_jobs('MODE_CRASH', [5], extra=['INTERRUPT'], suffix='_interrupt', reach=('interrupted', 'recovered'), bounds='SIGINT / SIGTERM / SIGHUP at any wait, delivered during the poll or left pending; running commands touched their outputs or not; recovery build'))
 
 # ---- tiering: which jobs run in the quick tier (measured on 16 cores; the rest is thorough only) -------------------------------------------
